@@ -84,6 +84,13 @@ func (g *gstate) touchesOpaque(p string) bool {
 			return true
 		}
 	}
+	// a path that goes through a regular file (a.txt/x): ENOTDIR rather than ENOENT, and
+	// the commands do not all treat the two alike
+	for f := range g.files {
+		if strings.HasPrefix(p, f+"/") {
+			return true
+		}
+	}
 	return false
 }
 
@@ -541,6 +548,9 @@ func (ev *evaluator) evalLine(line string) lineRes {
 				if i == 0 {
 					return rUnknown
 				}
+				if a[:i] == "WORK" {
+					return rUnknown // $WORK no longer names the work directory
+				}
 				g.env[a[:i]] = a[i+1:]
 				if a[:i] == "PATH" {
 					g.pathSet = true
@@ -834,6 +844,15 @@ func (ev *evaluator) helper(a []string, bg bool) (code int, out, errS string, sl
 			s += w + "\n"
 		}
 		return 0, s, "", false, true
+	case "lines8":
+		if len(r) < 1 {
+			return usage()
+		}
+		s := r[0] + "\xff\n"
+		for _, w := range r[1:] {
+			s += w + "\n"
+		}
+		return 0, s, "", false, true
 	case "print":
 		if len(r) != 1 {
 			return usage()
@@ -893,8 +912,8 @@ func (ev *evaluator) helper(a []string, bg bool) (code int, out, errS string, sl
 
 func (ev *evaluator) exec(neg bool, args []string) lineRes {
 	g := ev.g
-	if len(args) < 1 || (len(args) == 1 && args[0] == "&") {
-		return rFail
+	if len(args) < 1 || (len(args) == 1 && bgSpec.MatchString(args[0])) {
+		return rFail // usage: exec program [args...] [&]
 	}
 	if g.pathSet {
 		return rUnknown
@@ -915,9 +934,6 @@ func (ev *evaluator) exec(neg bool, args []string) lineRes {
 		return rUnknown
 	}
 	if isBg {
-		if len(args) < 2 {
-			return rUnknown
-		}
 		name := strings.TrimSuffix(strings.TrimPrefix(last, "&"), "&")
 		if _, p := ev.findBg(name); p != nil {
 			return rFail
